@@ -261,8 +261,8 @@ class HalfSplineDisk(QuarterSplineDisk):
     """Sketch for Half oval, elliptical and circular shapes"""
 
     chops: ClassVar = [
-        [1],  # axis 0
-        [1, 2, 5],  # axis 1
+        [2],  # axis 0
+        [2, 3, 5],  # axis 1
     ]
 
     def __init__(
@@ -296,7 +296,8 @@ class HalfSplineDisk(QuarterSplineDisk):
     @property
     def grid(self) -> List[List[Face]]:
         if len(self.faces) > 3:
-            return [self.faces[:2], self.faces[2:]]
+            # each merged quarter contributes one core face followed by its two shell faces
+            return [self.faces[::3], [face for i, face in enumerate(self.faces) if i % 3 != 0]]
         else:
             return super().grid
 
